@@ -30,7 +30,7 @@ BASE = {
     "WriteSizes": [], "InjGood": [], "InjUndec": [], "InjShort": [], "InjOver": [],
     "MaxWrites": 0, "MaxInjects": 0, "MaxInFlight": 0, "MaxChunks": 1,
     "Scope": "e2e", "LazyInject": False, "Canonical": False, "Bounded": False, "Record": False,
-    "History": False, "Depth": 0, "Deviations": [],
+    "History": False, "Depth": 0, "Edges": False, "Deviations": [],
 }
 SAFETY_TX = "TypeOK P_C11_Slices P_C11_Bounded P_C11_WriteAccepted P_C11_WriteRefused Lemma_PosHalf"
 SAFETY_RX = "TypeOK P_C11_Slices P_C11_Bounded P_C11_Conservation P_C11_NoBufferFull P_C11_CanReceive Lemma_PosHalf"
@@ -79,12 +79,14 @@ def geometry(init, mx):
     return {"InitCap": init, "MaxCap": mx}
 
 
-def rx_universe(mx, rich):
-    """Frames the peer may put on the socket in the exhaustive receiver runs."""
+def rx_universe(mx, rich, init=16):
+    """Frames the peer may put on the socket in the exhaustive receiver runs. A frame of exactly the initial size is
+    what leaves, in a grown buffer, a small remainder that ENDS beyond the initial size with position <= capacity/2:
+    the shrink-with-pending-bytes path (self-test switch ShrinkNoShift)."""
     if rich:
-        good = sorted({8, 12, mx // 2 + 1, mx - 7, mx})
+        good = sorted({8, 12, init, mx // 2 + 1, mx - 7, mx})
     else:
-        good = sorted({8, mx - 7, mx})
+        good = sorted({8, init, mx - 7, mx})
     return {"InjGood": good, "InjUndec": [20], "InjShort": [7], "InjOver": [mx + 1]}
 
 
@@ -269,7 +271,7 @@ def run(tier, replay=None):
         # receiver at full scale, canonical schedules
         tlc_job("mc_rx", "Channel", write_cfg(wd, "mc_rx.cfg", "Spec", dict(
             geometry(16, 64), Scope="rx", MaxInjects=1, MaxInFlight=2, LazyInject=True, Canonical=True,
-            InjGood=[8, 24, 57], InjUndec=[20], InjShort=[7], InjOver=[65]),
+            InjGood=[8, 16, 24, 57], InjUndec=[20], InjShort=[7], InjOver=[65]),
             invariants=SAFETY_RX, properties="P_C11_DeliverHead"), workers=8, timeout=2400, xmx="8g")
         # receiver at half scale, every schedule
         tlc_job("mc_rx_half", "Channel", write_cfg(wd, "mc_rx_half.cfg", "Spec", dict(
@@ -282,15 +284,29 @@ def run(tier, replay=None):
             **rx_universe(32, False)), invariants=SAFETY_RX, properties="P_C11_DeliverHead"),
             workers=6, timeout=600)
     # liveness under fairness (bounded number of frames so that the traffic ends)
+    # Edges: the owner of the receiver is only owed a wake-up when NEW bytes arrive (edge-triggered mio/epoll); bytes
+    # that were already reported must be remembered by the channel itself (readiness), or the channel is wedged
     live_rx = dict(geometry(16, 32), Scope="rx", MaxInjects=2, MaxInFlight=2 if thorough else 1, LazyInject=True,
                    Canonical=True, Bounded=True, InjGood=[8, 25, 32] if thorough else [8, 32], InjUndec=[20],
-                   InjShort=[7], InjOver=[33])
+                   InjShort=[7], InjOver=[33], Edges=True)
     tlc_job("live_rx", "Channel", write_cfg(wd, "live_rx.cfg", "FairSpec", live_rx, invariants=SAFETY_RX,
+                                            properties="P_C11_Live"), workers=2, timeout=2400)
+    # a burst larger than the ceiling to a slow reader, then a silent peer: every schedule (bytes pile up in the socket,
+    # spurious wake-ups allowed but not owed), so that readable() stops full at the ceiling with bytes left in the socket
+    live_ceiling = dict(geometry(16, 32), Scope="rx", MaxInjects=4 if thorough else 3, MaxInFlight=2, LazyInject=True,
+                        Canonical=False, Bounded=True, InjGood=[8, 16, 25], Edges=True)
+    tlc_job("live_ceiling", "Channel", write_cfg(wd, "live_ceiling.cfg", "FairSpec", live_ceiling, invariants=SAFETY_RX,
+                                                 properties="P_C11_Live"), workers=2, timeout=2400)
+    # the sender's mirror: after a drain the socket is still writable and no new writable edge will come; after a
+    # would-block the kernel reports the room it gets back. Every message accepted is eventually on the wire.
+    live_tx = dict(geometry(16, 64), Scope="tx", WriteSizes=[8, 20, 40, 64, 65], MaxWrites=4 if thorough else 3, MaxChunks=1,
+                   Bounded=True, Edges=True)
+    tlc_job("live_tx", "Channel", write_cfg(wd, "live_tx.cfg", "FairSpec", live_tx, invariants=SAFETY_TX,
                                             properties="P_C11_Live"), workers=2, timeout=2400)
     # the composition of both ends is small on purpose: its state space is the product of the two halves
     # (one more accepted length multiplies it by ~20), the halves are checked at scale on their own above
     live_e2e = dict(geometry(16, 32), Scope="e2e", WriteSizes=[20, 33], MaxWrites=1, MaxInjects=1, MaxInFlight=2,
-                    Canonical=True, LazyInject=True, Bounded=True, History=True, InjUndec=[12], InjShort=[7])
+                    Canonical=True, LazyInject=True, Bounded=True, History=True, InjUndec=[12], InjShort=[7], Edges=True)
     tlc_job("live_e2e", "Channel", write_cfg(wd, "live_e2e.cfg", "FairSpec", live_e2e,
                                              invariants=SAFETY_RX + " P_C11_History P_C11_WriteAccepted",
                                              properties="P_C11_Live P_C11_DeliverHead"), workers=2, timeout=2400)
@@ -303,6 +319,26 @@ def run(tier, replay=None):
         c.update(Deviations=[d], MaxInFlight=2, InjGood=[8, 25], MaxInjects=2)
         dev_jobs[d] = pool.submit(vlib.tlc, "Channel", write_cfg(wd, "dev_%s.cfg" % d, "FairSpec", c,
                                   invariants=SAFETY_RX, properties="P_C11_Live"), PID, workers=2, timeout=1200)
+
+    # self-test switches (both tiers): defect classes the model must refute, i.e. the universe explored above reaches
+    # the states where they matter and the property has teeth there. (name, base config, spec, invariants, properties,
+    # what TLC must report)
+    rx_small = dict(geometry(16, 32), Scope="rx", MaxInjects=1, MaxInFlight=2, LazyInject=True, Canonical=True,
+                    **rx_universe(32, False))
+    tx_small = dict(geometry(16, 64), Scope="tx", WriteSizes=frame_sizes(16, 64, True), MaxWrites=1, MaxChunks=1)
+    self_tests = [
+        ("ShrinkNoShift", "rx", rx_small, "Spec", "TypeOK P_C11_Slices", "", "P_C11_Slices"),
+        ("ShrinkNoShift", "tx", tx_small, "Spec", "TypeOK P_C11_Slices", "", "P_C11_Slices"),
+        ("CeilingClearsReadiness", "rx", live_ceiling, "FairSpec", SAFETY_RX, "P_C11_Live", "P_C11_Live"),
+        ("DrainClearsReadiness", "tx", live_tx, "FairSpec", SAFETY_TX, "P_C11_Live", "P_C11_Live"),
+    ]
+    self_jobs = []
+    for (d, side, base, spec, inv, props, want) in self_tests:
+        c = dict(base)
+        c.update(Deviations=[d])
+        self_jobs.append((d, side, want, pool.submit(
+            vlib.tlc, "Channel", write_cfg(wd, "self_%s_%s.cfg" % (d, side), spec, c, invariants=inv, properties=props),
+            PID, workers=2, timeout=1200)))
 
     # ---- 3. S->I generator --------------------------------------------------------------------------
     gens = [(16, 64, seed), (12, 40, seed + 1000)] + ([(16, 32, seed + 2000), (24, 64, seed + 3000)] if thorough else [])
@@ -360,6 +396,17 @@ def run(tier, replay=None):
         for e in rep.findings:
             if e.get("status") == "open" and e.get("deviation") == d:
                 rep.known_finding_seen(e["id"])
+
+    refuted = []
+    for (d, side, want, fut) in self_jobs:
+        r = fut.result()
+        rep.add_tlc(r)
+        if r["violated"] != want:
+            raise vlib.ToolError("self-test: defect class %s (%s side) is no longer refuted by %s in the model (TLC says %s): "
+                                 "the explored universe does not reach it" % (d, side, want, r["violated"]))
+        refuted.append("%s/%s" % (d, side))
+    vlib.log("self-test switches refuted by TLC: %s" % ", ".join(refuted))
+    rep.extra["self_test_switches_refuted"] = refuted
 
     # ---- collect: replay
     n_beh = 0
